@@ -30,7 +30,8 @@ _memo = {}
 
 def _lean_sources_hash():
     h = hashlib.sha256()
-    for rel in ("CrCube/Model/Collator.lean", "CrCube/Model/Glue.lean", "CrCube/Spec/Order.lean"):
+    for rel in ("CrCube/Model/Collator.lean", "CrCube/Model/Glue.lean", "CrCube/Spec/Order.lean", "CrCube/Model/Variance.lean",
+                "CrCube/Model/Population.lean", "CrCube/Model/PairwiseLegacy.lean"):
         with open(os.path.join(LEAN_DIR, rel), "rb") as fh:
             h.update(fh.read())
     return h.hexdigest()
